@@ -50,7 +50,10 @@ var addrs = []string{"user@a.test", "a.b@a.test", "o'brien@a.test", "50%off@a.te
 	// a literal %HH must survive exactly one decoding; "xAy" is what a second decoding of "x%41y" would address
 	"x%41y@a.test", "xAy@a.test", "a%2Fb@a.test", "p%25q@a.test",
 	// several +tags: the name is cut at the first one, and the mailbox "al+ice" does not exist
-	"al+ice+news+2024@a.test", "al+ice@a.test", "al@a.test"}
+	"al+ice+news+2024@a.test", "al+ice@a.test", "al@a.test",
+	// long names of URL-significant characters: escaped they are three times as long
+	"q" + strings.Repeat("/&=?#%", 10) + "x@a.test", "w" + strings.Repeat("#%&'*/=?^{|}", 9) + "@a.test",
+	"l" + strings.Repeat("!$&=?", 12) + "@" + strings.Repeat(strings.Repeat("d", 60)+".", 3) + "test"}
 
 var opGen = rapid.Custom(func(t *rapid.T) Op {
 	op := Op{Addr: rapid.IntRange(0, len(addrs)-1).Draw(t, "addr"), Ask: rapid.SampledFrom([]int{0, 0, 1, 2}).Draw(t, "ask")}
